@@ -40,6 +40,7 @@ package whispertool
 //@   requires a != nil && a.secondsPerPoint > 0
 //@   ensures floor: result == a.secondsPerPoint * (t fdiv a.secondsPerPoint)
 //@   ensures le: result <= t && t - result < a.secondsPerPoint
+//@   ensures aligned: alignedTo(result, a.secondsPerPoint)
 
 //@ func (*ArchiveInfo).pointIndex
 //@   props C01 C06
@@ -59,6 +60,7 @@ package whispertool
 //@   requires a != nil
 //@   ensures exact: 0 <= index && a.offset + 12 * index <= 4294967295 ==> result == a.offset + 12 * index
 
+//@ spec alignedTo(t int, s int) opaque bool = t fmod s == 0
 //@ spec sortedByTime(points []Point) bool = forall i, j :: 0 <= i && i < j && j < len(points) ==> points[i].Time <= points[j].Time
 
 //@ func extractPoints
@@ -401,6 +403,7 @@ package whispertool
 //@   ensures frame: result == nil ==> forall o :: (o + 12 <= offset || o >= offset + 12) ==> slotTime(frow(w.fileBuf), o) == old(slotTime(frow(w.fileBuf), o))
 //@                 && slotBits(frow(w.fileBuf), o) == old(slotBits(frow(w.fileBuf), o))
 //@   ensures failed: result != nil ==> frow(w.fileBuf) == old(frow(w.fileBuf))
+//@   ensures bytes_frame: forall k :: (k < offset || k >= offset + 12) ==> fbyte(w.fileBuf, k) == old(fbyte(w.fileBuf, k))
 
 //@ func (*Whisper).baseInterval
 //@   props C01 C02 C04
@@ -647,3 +650,44 @@ package whispertool
 //@ loop aggregate#1
 //@   invariant bounds: 0 <= iter && iter <= len(knownValues)
 //@   invariant fold: bits(min) == minf(row(knownValues), knownValues.off, iter)
+
+//@ spec kcount(r row:Point, off int, n int, c0 int, s int) rec int = ite(n <= 0, 0, kcount(r, off, n - 1, c0, s) + ite(r[off + n - 1].Time == c0 + (n - 1) * s, 1, 0))
+
+//@ func filterValidValues
+//@   props C02
+//@   requires rLow != nil && validArchive(*rLow) && fromInterval + len(points) * rLow.secondsPerPoint <= 4294967295
+//@   ensures fresh: fresh(result) && len(result) <= len(points)
+//@   ensures index: forall i :: 0 <= i && i < len(points) && points[i].Time == rLow.secondsPerPoint * (fromInterval fdiv rLow.secondsPerPoint) + i * rLow.secondsPerPoint
+//@                 ==> 0 <= kcount(row(points), points.off, i, rLow.secondsPerPoint * (fromInterval fdiv rLow.secondsPerPoint), rLow.secondsPerPoint)
+//@                     && kcount(row(points), points.off, i, rLow.secondsPerPoint * (fromInterval fdiv rLow.secondsPerPoint), rLow.secondsPerPoint) < len(result)
+//@   ensures count: len(result) == kcount(row(points), points.off, len(points), rLow.secondsPerPoint * (fromInterval fdiv rLow.secondsPerPoint), rLow.secondsPerPoint)
+//@   ensures order: forall i :: 0 <= i && i < len(points) && points[i].Time == rLow.secondsPerPoint * (fromInterval fdiv rLow.secondsPerPoint) + i * rLow.secondsPerPoint
+//@                 ==> bits(result[kcount(row(points), points.off, i, rLow.secondsPerPoint * (fromInterval fdiv rLow.secondsPerPoint), rLow.secondsPerPoint)]) == bits(points[i].Value)
+//@ loop filterValidValues#0
+//@   invariant bounds: 0 <= iter && iter <= len(points)
+//@   invariant cur: currentInterval == rLow.secondsPerPoint * (fromInterval fdiv rLow.secondsPerPoint) + iter * rLow.secondsPerPoint
+//@   invariant vals: values.arr > old(top) && cap(values) == len(points) && len(values) <= iter && 0 <= len(values)
+//@   invariant count: len(values) == kcount(row(points), points.off, iter, rLow.secondsPerPoint * (fromInterval fdiv rLow.secondsPerPoint), rLow.secondsPerPoint)
+//@   invariant order: forall i :: 0 <= i && i < iter && points[i].Time == rLow.secondsPerPoint * (fromInterval fdiv rLow.secondsPerPoint) + i * rLow.secondsPerPoint
+//@                 ==> 0 <= kcount(row(points), points.off, i, rLow.secondsPerPoint * (fromInterval fdiv rLow.secondsPerPoint), rLow.secondsPerPoint)
+//@                     && kcount(row(points), points.off, i, rLow.secondsPerPoint * (fromInterval fdiv rLow.secondsPerPoint), rLow.secondsPerPoint) < len(values)
+//@                     && bits(values[kcount(row(points), points.off, i, rLow.secondsPerPoint * (fromInterval fdiv rLow.secondsPerPoint), rLow.secondsPerPoint)]) == bits(points[i].Value)
+
+//@ func (*Whisper).propagate
+//@   props C02 C15 C05
+//@   requires handleOK(w) && 1 <= archiveID && archiveID < len(w.header.archiveInfoList) && clockOK(w, now)
+//@   requires forall j :: 0 <= j && j < len(ts) ==> ts[j] <= now
+//@   modifies fb(w.fileBuf)
+//@   ensures kind: err == nil || isio(err)
+//@   ensures frame: forall k :: (k < archOf(w, archiveID).offset || k >= archOf(w, archiveID).offset + 12 * countOf(w, archiveID)) ==> fbyte(w.fileBuf, k) == old(fbyte(w.fileBuf, k))
+//@   ensures out_bound: forall j :: 0 <= j && j < len(propagatedTs) ==> propagatedTs[j] <= now
+//@   ensures out_last: archiveID + 1 == len(w.header.archiveInfoList) ==> len(propagatedTs) == 0
+//@   ensures out_aligned: archiveID + 1 < len(w.header.archiveInfoList) ==> forall j :: 0 <= j && j < len(propagatedTs) ==> alignedTo(propagatedTs[j], stepOf(w, archiveID + 1))
+//@   ensures out_fresh: len(propagatedTs) == 0 || fresh(propagatedTs)
+//@ loop (*Whisper).propagate#0
+//@   invariant bounds: 0 <= iter && iter <= len(ts)
+//@   invariant frame: forall k :: (k < archOf(w, archiveID).offset || k >= archOf(w, archiveID).offset + 12 * countOf(w, archiveID)) ==> fbyte(w.fileBuf, k) == old(fbyte(w.fileBuf, k))
+//@   invariant out_bound: forall j :: 0 <= j && j < len(propagatedTs) ==> propagatedTs[j] <= now
+//@   invariant out_last: archiveID + 1 == len(w.header.archiveInfoList) ==> len(propagatedTs) == 0
+//@   invariant out_aligned: archiveID + 1 < len(w.header.archiveInfoList) ==> forall j :: 0 <= j && j < len(propagatedTs) ==> alignedTo(propagatedTs[j], stepOf(w, archiveID + 1))
+//@   invariant out_fresh: (len(propagatedTs) == 0 && propagatedTs.arr == 0) || propagatedTs.arr > old(top)
